@@ -101,6 +101,46 @@ pub open spec fn no_occ(h: Seq<u8>, n: Seq<u8>) -> bool {
     forall|j: int| !occurs_at(h, n, j)
 }
 
+// ---- std's split sequences (C06/C14) ----------------------------------------------------------------
+/// the first occurrence is unique
+pub proof fn lemma_first_occ_unique(b: Seq<u8>, pb: Seq<u8>, s: int, t: int)
+    requires is_first_occ(b, pb, s), is_first_occ(b, pb, t),
+    ensures s == t,
+{
+    if s < t { assert(!occurs_at(b, pb, s)); }
+    if t < s { assert(!occurs_at(b, pb, t)); }
+}
+pub proof fn lemma_last_occ_unique(b: Seq<u8>, pb: Seq<u8>, s: int, t: int)
+    requires is_last_occ(b, pb, s), is_last_occ(b, pb, t),
+    ensures s == t,
+{
+    if s < t { assert(!occurs_at(b, pb, t)); }
+    if t < s { assert(!occurs_at(b, pb, s)); }
+}
+
+/// `str::split(pat)` for a non-empty pattern: the piece before the first occurrence, then the split of what follows it
+pub open spec fn split_seq(b: Seq<u8>, pb: Seq<u8>) -> Seq<Seq<u8>>
+    decreases b.len()
+{
+    if pb.len() > 0 && (exists|s: int| is_first_occ(b, pb, s)) {
+        let s = choose|s: int| is_first_occ(b, pb, s);
+        seq![b.subrange(0, s)] + split_seq(b.subrange(s + pb.len(), b.len() as int), pb)
+    } else {
+        seq![b]
+    }
+}
+/// `str::rsplit(pat)`: the piece after the last occurrence, then the rsplit of what precedes it
+pub open spec fn rsplit_seq(b: Seq<u8>, pb: Seq<u8>) -> Seq<Seq<u8>>
+    decreases b.len()
+{
+    if pb.len() > 0 && (exists|s: int| is_last_occ(b, pb, s)) {
+        let s = choose|s: int| is_last_occ(b, pb, s);
+        seq![b.subrange(s + pb.len(), b.len() as int)] + rsplit_seq(b.subrange(0, s), pb)
+    } else {
+        seq![b]
+    }
+}
+
 // ---- panics -------------------------------------------------------------------------------------
 // k2v rule P1 turns every call into core::panicking (the expansion of panic!/assert!/unreachable!)
 // into `k2v_panic()`.  Reaching it is a failed obligation: verified functions must not panic under
